@@ -117,6 +117,8 @@ func c35YAML(restricted bool, dir string) (string, map[string]int) {
 	b := &strings.Builder{}
 	w := func(format string, a ...any) { fmt.Fprintf(b, format+"\n", a...) }
 	w("logLevel: error")
+	w("logDestinations: [file]")
+	w("logFile: %s/mediamtx.log", dir)
 	w("readTimeout: 10s")
 	w("writeTimeout: 10s")
 	if restricted {
